@@ -97,16 +97,31 @@ def applyEvent (s : State) (i : Nat) (ev : String) : Option State :=
     | _ => none
   else none
 
+/-- D68's situation, seen from the collecting instance `x` (number `i`): a job-retained handle of an instance that is
+gone, newer than the checkpoint `x` was restored from — `x` never learns of it -/
+def newerDeadHandle (s : State) (i : Nat) (x : Inst) (h : Handle) : Bool :=
+  h.writer != i && !writerAlive s h.writer && (match x.src with
+    | some n => decide (n < h.id)
+    | none => false)
+
 /-- does anybody whose key-group range overlaps the table still hold it (a running instance's level list, or a
-job-retained checkpoint written by such an instance)? If only out-of-range holders are left the deletion is D34. -/
-def inRangeHolder (s : State) (i : Nat) (t : Tbl) : Bool :=
+job-retained checkpoint written by such an instance)? If only out-of-range holders are left the deletion is D34.
+Handles selected by `skip` are left out. -/
+def inRangeHolder (s : State) (i : Nat) (t : Tbl) (skip : Handle → Bool) : Bool :=
   let overl := fun (j : Nat) => match s.insts[j]? with
     | some y => Gen.kgOverlaps y.range t.span
     | none => true
   ((List.range s.insts.length).any fun j => j != i && overl j && (match s.insts[j]? with
       | some y => y.life = .alive && (uris y.current).contains t.uri
       | none => false)) ||
-  s.retained.any fun h => (uris h.tables).contains t.uri && (h.writer == i || overl h.writer)
+  s.retained.any fun h => !skip h && (uris h.tables).contains t.uri && (h.writer == i || overl h.writer)
+
+/-- any holder at all besides the collecting instance and the handles selected by `skip` -/
+def otherHolder (s : State) (i : Nat) (t : Tbl) (skip : Handle → Bool) : Bool :=
+  ((List.range s.insts.length).any fun j => j != i && (match s.insts[j]? with
+      | some y => y.life = .alive && (uris y.current).contains t.uri
+      | none => false)) ||
+  s.retained.any fun h => !skip h && (uris h.tables).contains t.uri
 
 def collectOne (st : St) (need : List File) (acc : GcAcc) (i : Nat) (u : Path) (isCreated : Bool) : GcAcc :=
   match acc.s.insts[i]? with
@@ -130,7 +145,13 @@ def collectOne (st : St) (need : List File) (acc : GcAcc) (i : Nat) (u : Path) (
             if x.life = .released then "D25"
             else if isCreated then ""
             else match x.loaded.find? (fun t => t.uri == u) with
-              | some t => if inRangeHolder acc.s i t then "" else "D34"
+              | some t =>
+                -- D68 only in its situation: the table is still needed ONLY by retained checkpoints, newer than the one
+                -- this instance was restored from, of instances that are gone
+                let skip := newerDeadHandle acc.s i x
+                if inRangeHolder acc.s i t skip then ""
+                else if otherHolder acc.s i t skip then "D34"
+                else if acc.s.retained.any (fun h => skip h && (uris h.tables).contains t.uri) then "D68" else "D34"
               | none => ""
           [(u, kf)]
         else []
@@ -155,62 +176,91 @@ def pickKf (bad : List (String × String)) : String :=
   | b :: _ => b.2
   | [] => ""
 
+/-- an operation refused because a file it needs is gone (the code under test would panic in a background goroutine):
+the refusal is a consequence of that loss, and carries a finding's id only if every missing file was lost in that
+finding's situation (as recorded when it was lost); an unrecorded loss leaves it untagged -/
+def refused (st : St) (gone : List File) : String :=
+  let ids := gone.map fun f => match st.lostKf.find? (fun b => b.1 == filePath f) with
+    | some b => b.2
+    | none => ""
+  let kf := if ids.isEmpty || ids.any (· == "") then ""
+    else if ids.any (· == "D25") then "D25" else ids.headD ""
+  withSpec "files-missing" "ok" kf
+
+/-- `open`: a new instance, empty or restored from checkpoint handles; the model step, then the commits of the WAL
+replay as read from the implementation -/
+def doOpen (st : St) (rg : String) (rest hint : List String) : St × String :=
+  let range := parseRange rg
+  let gen := natOr (field rest "gen")
+  let nbrs := (parseList (field rest "nbrs")).map parseRange
+  let from_ := field rest "from"
+  -- the storage directory: the instance's own unless `dir=<k>` names an earlier one (same operator id)
+  let dirS := field rest "dir"
+  let dir := if dirS == "" then st.s.insts.length else natOr dirS
+  let act : Act :=
+    if from_ == "none" || from_ == "" then .openFresh range gen nbrs dir
+    else match from_.splitOn ":" with
+      | [w, id] => .openFrom range gen nbrs ((w.splitOn "+").map natOr) (natOr id) dir
+      | _ => .openFresh range gen nbrs dir
+  match Files.step st.s act with
+  | none => (st, "no-such-checkpoint")
+  | some s' =>
+    let idx := st.s.insts.length
+    let lost : List File := match s'.insts[idx]? with
+      | some x => ((uris x.current).map File.sst ++ (match x.ckpts with
+            | c :: _ => c.wals.map File.wal
+            | [] => [])).filter (fun f => !st.s.files.contains f)
+      | none => []
+    if !lost.isEmpty then (st, refused st lost) else
+    match s'.insts[idx]? with
+    | none => (st, "bad-state")
+    | some x =>
+      let wals := match x.ckpts with
+        | c :: _ => c.wals
+        | [] => []
+      -- the WAL replay may flush and compact before the instance is handed over: those commits are read from the
+      -- implementation like the ones of a `write`
+      let evs := field hint "ev"
+      let events := if evs == "-" || evs == "" then [] else evs.splitOn ";"
+      let r := events.foldl (fun (acc : Option State × String) ev =>
+        match acc.1 with
+        | none => acc
+        | some s => match applyEvent s idx ev with
+          | some s2 => (some s2, acc.2)
+          | none => (none, ev)) (some s', "")
+      match r.1 with
+      | none => (st, "disabled " ++ r.2)
+      | some s2 =>
+        ({ st with s := s2, modes := st.modes ++ ["truthful"] },
+          "ok " ++ toString idx ++ " tables=" ++ joinC (sortStr (x.current.map showTbl)) ++ " wals=" ++ joinC (sortStr (wals.map walName))
+            ++ " ev=" ++ (if evs == "" then "-" else evs))
+
 def step (st : St) (ws : List String) : St × String :=
   let (op, hint) := splitHint ws
   match op with
-  | "open" :: rg :: rest =>
-    let range := parseRange rg
-    let gen := natOr (field rest "gen")
-    let nbrs := (parseList (field rest "nbrs")).map parseRange
-    let from_ := field rest "from"
-    -- the storage directory: the instance's own unless `dir=<k>` names an earlier one (same operator id)
-    let dirS := field rest "dir"
-    let dir := if dirS == "" then st.s.insts.length else natOr dirS
-    let act : Act :=
-      if from_ == "none" || from_ == "" then .openFresh range gen nbrs dir
-      else match from_.splitOn ":" with
-        | [w, id] => .openFrom range gen nbrs ((w.splitOn "+").map natOr) (natOr id) dir
-        | _ => .openFresh range gen nbrs dir
-    match Files.step st.s act with
-    | none => (st, "no-such-checkpoint")
-    | some s' =>
-      let idx := st.s.insts.length
-      let lost := match s'.insts[idx]? with
-        | some x => (uris x.current).any (fun u => !st.s.files.contains (.sst u)) ||
-            (match x.ckpts with
-              | c :: _ => c.wals.any (fun w => !st.s.files.contains (.wal w))
-              | [] => false)
-        | none => false
-      if lost then (st, "files-missing") else
-      match s'.insts[idx]? with
-      | none => (st, "bad-state")
-      | some x =>
-        let wals := match x.ckpts with
-          | c :: _ => c.wals
-          | [] => []
-        -- the WAL replay may flush and compact before the instance is handed over: those commits are read from the
-        -- implementation like the ones of a `write`
-        let evs := field hint "ev"
-        let events := if evs == "-" || evs == "" then [] else evs.splitOn ";"
-        let r := events.foldl (fun (acc : Option State × String) ev =>
-          match acc.1 with
-          | none => acc
-          | some s => match applyEvent s idx ev with
-            | some s2 => (some s2, acc.2)
-            | none => (none, ev)) (some s', "")
-        match r.1 with
-        | none => (st, "disabled " ++ r.2)
-        | some s2 =>
-          ({ st with s := s2, modes := st.modes ++ ["truthful"] },
-            "ok " ++ toString idx ++ " tables=" ++ joinC (sortStr (x.current.map showTbl)) ++ " wals=" ++ joinC (sortStr (wals.map walName))
-              ++ " ev=" ++ (if evs == "" then "-" else evs))
+  | "open" :: rg :: rest => doOpen st rg rest hint
+  | "redeploy" :: i :: rest =>
+    -- a second, successful `Operator.HandleDeploy` on the operator that serves instance `i` (same assembly): the
+    -- operator drops the instance it had inside its living process and opens a new one, in the same directory, from
+    -- the given handles. A load that cannot start leaves the operator serving the instance it had.
+    let i := natOr i
+    if !aliveAt st i then (st, "not-alive") else
+    match st.s.insts[i]?, Files.step st.s (.release i) with
+    | some x, some s1 =>
+      let showR := fun (r : KGRange) => toString r.start ++ "-" ++ toString r.stop
+      let r := doOpen { st with s := s1 } (showR x.range)
+        ["gen=" ++ field rest "gen", "nbrs=" ++ joinC (x.nbrs.map showR), "from=" ++ field rest "from",
+         "dir=" ++ toString x.dir] hint
+      if r.2.startsWith "ok " then r else (st, r.2)
+    | _, _ => (st, "not-alive")
   | ["write", i, _, _, _] =>
     let i := natOr i
     if !aliveAt st i then (st, "not-alive") else
     let cur := match st.s.insts[i]? with
       | some x => uris x.current
       | none => []
-    if cur.any (fun u => !st.s.files.contains (.sst u)) then (st, "files-missing") else
+    if cur.any (fun u => !st.s.files.contains (.sst u)) then
+      (st, refused st ((cur.map File.sst).filter (fun f => !st.s.files.contains f))) else
     match hint with
     | ["ok", evs] =>
       let events := if evs == "-" then [] else evs.splitOn ";"
@@ -241,6 +291,11 @@ def step (st : St) (ws : List String) : St × String :=
     match Files.step st.s (.jobDrop (natOr k)) with
     | none => (st, "disabled")
     | some s' => ({ st with s := s' }, "ok")
+  | ["jobabandon", id] =>
+    -- the job gives up a checkpoint (never completed, or rolled back past): the job's decision, like jobdrop
+    match Files.step st.s (.jobAbandon (natOr id)) with
+    | none => (st, "disabled")
+    | some s' => ({ st with s := s' }, "ok")
   | ["retain", i, ids] =>
     let i := natOr i
     if !aliveAt st i then (st, "not-alive") else
@@ -267,7 +322,8 @@ def step (st : St) (ws : List String) : St × String :=
     let cur := match st.s.insts[i]? with
       | some x => uris x.current
       | none => []
-    if isScan && aliveAt st i && cur.any (fun u => !st.s.files.contains (.sst u)) then (st, "files-missing") else
+    if isScan && aliveAt st i && cur.any (fun u => !st.s.files.contains (.sst u)) then
+      (st, refused st ((cur.map File.sst).filter (fun f => !st.s.files.contains f))) else
     match Files.step st.s (.snap i) with
     | none => (st, "not-alive")
     | some s' =>
@@ -282,7 +338,8 @@ def step (st : St) (ws : List String) : St × String :=
     | none => (st, "not-alive")
     | some s' =>
       ({ st with s := s', scans := st.scans.set (natOr i) ((st.scans.getD (natOr i) []).eraseIdx (natOr k)) },
-        if isScan && pinned.any (fun u => !st.s.files.contains (.sst u)) then "files-missing" else "ok")
+        if isScan && pinned.any (fun u => !st.s.files.contains (.sst u)) then
+          refused st ((pinned.map File.sst).filter (fun f => !st.s.files.contains f)) else "ok")
   | ["crash", i] =>
     match Files.step st.s (.crash (natOr i)) with
     | none => (st, "not-alive")
